@@ -3,7 +3,10 @@
 set -e
 cd "$(dirname "$0")"
 export CARGO_NET_OFFLINE=true
+python3 tools/logtable.py >/dev/null   # C20: regenerate Bgpfu/Model/LogTableGen.lean from /repo
 (cd lean && lake build Bgpfu modeld)
 (cd harness && cargo build --offline)
+# C20 runs the real agent binary (built into our own target dir, /repo is not written to)
+cargo build --offline --manifest-path /repo/Cargo.toml -p bgpfu-junos-agent --target-dir "$(pwd)/repo-target" >/dev/null 2>&1 || echo "warning: agent binary not built (C20 will try again)"
 mkdir -p evidence replays work
 echo setup-ok
